@@ -117,6 +117,10 @@ class Gen:
             pl[ch.draw(len(pl), "pl_falsy_pos")] = ""   # a falsy element: conditions on the loop variable vary per iteration
         ctx = {"pa": "PA", "pb": "PB", "pl": pl,
                "pn": ["a", "b"][: 1 + ch.draw(2, "len_pn")], "pt": True, "pf": False}
+        if self.on("provide"):
+            order = ch.draw(3, "pds_shape")
+            ctx["pds"] = [{"pva": "S1", "pvb": "S2"},
+                          [{"pvb": "S3", "pva": "S4"}, {"pvc": "S5", "pva": "S6"}, {"pva": "S7"}][order]]
         if P.get("collide"):
             for nm in POOL:
                 if ch.chance(1, 2, "page_pool"):
@@ -225,6 +229,9 @@ class Gen:
         files = ch.subset(MEDIA_CSS, "media_css", 1, 3)
         if files and ch.chance(1, 3, "css_dict"):
             cd["media_css"] = {"all": files[:1], "print": files[1:]} if len(files) > 1 else {"print": files}
+            if ch.chance(1, 3, "css_dict_overlap"):
+                # the same file under two media types: still delivered exactly once (C04)
+                cd["media_css"] = {"all": list(files), "print": files[:1]}
         else:
             cd["media_css"] = files
         later = [j for j in range(i + 1, len(self.comps)) if self.comps[j] is not None]
@@ -319,6 +326,11 @@ class Gen:
             # variables (they must never be visible: "provided values never become template variables")
             first = ch.draw(3, "pkw_first")
             kw = [[PROVIDE_KWARGS[(first + q) % 3], self.expr(scope, "pval")] for q in range(1 + ch.draw(2, "n_pkw"))]
+            if owner is None and not in_fill and ch.chance(1, 4, "provide_spread"):
+                # the same {% provide %} tag rendered once per dict of `pds`, its kwargs coming from a spread: the dicts
+                # differ in key order / names, so anything memoised on the tag from an earlier render shows
+                body = self.nodes(scope, owner, depth + 1, in_fill=in_fill, in_slot_default=in_slot_default)
+                return ["for", "pd", "pds", [["provide", key, [["...", ["var", "pd"]]], body]]]
             return ["provide", key, kw,
                     self.nodes(scope, owner, depth + 1, in_fill=in_fill, in_slot_default=in_slot_default)]
         if k == "slot":
